@@ -139,6 +139,13 @@ impl Ctx {
             for &b in &text[body_start..] { v.push(b); if b == b'\n' { col += 1; if col % 2 == 1 { v.push(b'\n'); } } }
             variants.push(("bodyblank", v));
         }
+        // empty lines between the last line of the block body (the checksum line, if any) and the END line
+        if let Some(p) = rfind(&text, b"\n-----END") {
+            for (name, ins) in [("blank-before-end", &b"\n"[..]), ("two-blanks-before-end", b"\n\n"), ("crlf-blank-before-end", b"\r\n")] {
+                let mut v = text[..p + 1].to_vec(); v.extend_from_slice(ins); v.extend_from_slice(&text[p + 1..]);
+                variants.push((name, v));
+            }
+        }
         for (name, v) in variants {
             let (src, reqs) = self.sched();
             let check = self.rng.chance(1, 4);
@@ -247,7 +254,9 @@ fn main() {
     // boundary calculus: multiples of 3, 48 (one line), 768, 1024 +- 2
     for base in [48usize, 96, 768, 1024, 1536, 3072, 8192] {
         for k in 1..=2 {
-            for d in -2i64..=2 {
+            // (down to -6: with a checksum line, the base64 decoder's 1024-character buffer ends inside "=XXXX" for payloads of
+            //  763..765 + 768k octets)
+            for d in -6i64..=2 {
                 let n = (base * k) as i64 + d;
                 let data = cx.rng.bytes(n as usize);
                 cx.roundtrip(T::Fixed(4), &empty, &data, true, "len-boundary");
